@@ -53,6 +53,9 @@ CHECKS = {
     "C13": ("exploration", "runtime monitoring: metamorphic oracles between runs (select vs filter/sort-by/group-by/split-by/macro position; canonical vs alias/separator/sugar spelling; regex cache sizes 0/1/2/64)",
             "The same generated expression is used in all five option positions and in all spellings (80/80 aliases of pure functions exercised per quick run) and regex-heavy histories are run under four cache sizes with hook-observed hits/misses/evictions.",
             "Relations between runs of the same build only; a defect that affects all positions identically is C04's business.", "5 C13"),
+    "C04": ("exploration", "runtime monitoring: reference-model oracle (Python evaluator written from the function documentation, re-validated against the tree's inline examples at run time) applied to --select columns of real runs",
+            "Every generated expression is evaluated by the real code on generated inputs and by the reference evaluator on the same AST; each column must equal the model's value or be absent exactly when the model says nothing. All 108 pure functions are targeted in turn; all aliases via spelling variants.",
+            "Trusts vf/exprmodel.py as the reading of the documentation fixed in SEMANTICS.md (it agrees with 407 inline examples of the repository); corners the documents leave open are answered UNSPECIFIED and not compared (counted in the evidence).", "5 C04, SEMANTICS.md"),
 }
 
 PENDING_REASON = "check not built yet in this session (see DESIGN.md section 5 for the planned monitor)"
